@@ -631,7 +631,8 @@ func killState(lines []string) string {
 // ---- generation ----
 
 func genCase(rnd *hx.Rand, tier string) Case {
-	cfg := prim.Cfg{PageSize: []int{4096, 4096, 1024, 8192}[rnd.Intn(4)], AutoVacuum: rnd.Chance(40)}
+	// all eight legal SQLite page sizes (65536 is stored as 1 in the header: follow's special case)
+	cfg := prim.Cfg{PageSize: []int{512, 1024, 2048, 4096, 4096, 8192, 16384, 32768, 65536, 65536}[rnd.Intn(10)], AutoVacuum: rnd.Chance(40)}
 	c := Case{Cfg: cfg, Init: []prim.Op{{K: "write", A: 3 + rnd.Intn(20), B: 200 + rnd.Intn(2000)}, {K: "sync"}}}
 	if rnd.Chance(70) {
 		c.Init = append(c.Init, prim.Op{K: "snapshot"})
@@ -837,6 +838,7 @@ func main() {
 					continue
 				}
 				res.Case(canon, nt)
+				res.Count(fmt.Sprintf("page-size/%d", c.Cfg.PageSize))
 				if len(res.Samples) < 4 {
 					res.Sample(c)
 				}
@@ -845,8 +847,16 @@ func main() {
 			}
 		}()
 	}
+	first := true
 	for time.Now().Before(deadline) {
-		cases <- genCase(rnd.Fork(), o.Tier)
+		c := genCase(rnd.Fork(), o.Tier)
+		if first { // every run has at least one 64 KiB-page follower with convergence and resume after kill
+			first = false
+			c.Cfg.PageSize = 65536
+			c.Phases = append([]Phase{{Mode: "run", Ops: []prim.Op{{K: "write", A: 3, B: 900}, {K: "sync"}, {K: "update", A: 2, B: 700}, {K: "sync"}}}}, c.Phases...)
+			res.Count("case/forced-page-size-65536")
+		}
+		cases <- c
 	}
 	close(cases)
 	wg.Wait()
